@@ -27,6 +27,9 @@ def case_st(draw):
         # a file right at the end of the disc, so that the LAST unused span is the smallest one (extract-unused)
         c["endfile"] = draw(st.booleans())
         c["tracks"] = draw(st.sampled_from([40, 80]))
+        # extract-unused only: the image file itself is cut short inside the free area (reads of the missing sectors
+        # fail, which the tool reports as a warning and survives)
+        c["img_cut"] = draw(st.sampled_from([None, None, 10, 50, 100, 200]))
     else:
         c["cmd"] = draw(st.sampled_from(BASIC_CMDS))
         c["prog"] = draw(gen_basic.program(max_lines=draw(st.sampled_from([1, 5, 40]))))
@@ -192,7 +195,10 @@ class C11(CheckBase):
         ents.sort(key=lambda e: -e["start"])
         s = {"variant": "acorn", "tracks": tracks, "spt": 10, "fill": {"kind": "rand", "seed": 3},
              "volumes": [{"label": None, "title": b"C11", "cycle": 1, "boot": 2, "total": total, "cats": [ents]}]}
-        img = sb.file("d.ssd", disc.build_surface(s))
+        data = disc.build_surface(s)
+        if case.get("img_cut") and case["cmd"] == "extract-unused":
+            data = data[:max(case["img_cut"], 4) * 256]
+        img = sb.file("d.ssd", data)
         f0 = ":0.A.F0"
         cmd = case["cmd"]
         base = [dfs, "--file", img]
